@@ -52,7 +52,8 @@ class Live(object):
         return [k for k, m in self.mems.items() if not isinstance(m, pyrtl.RomBlock)]
 
 
-def make_sim(kind, live, init, tracer='all'):
+def make_sim(kind, live, init, tracer='all', tracer_obj=None):
+    """tracer_obj: a SimulationTrace that an earlier simulator was already constructed on."""
     import pyrtl
     blk = live.block
     rmap = {blk.wirevector_by_name[n]: v for n, v in init.get('regs', {}).items()}
@@ -60,7 +61,7 @@ def make_sim(kind, live, init, tracer='all'):
     mmap = {}
     for k, d in init.get('mems', {}).items():
         mmap[table[k]] = {int(a): v for a, v in d.items()}
-    tr = pyrtl.SimulationTrace(tracer, block=blk)
+    tr = tracer_obj if tracer_obj is not None else pyrtl.SimulationTrace(tracer, block=blk)
     dv = init.get('default', 0)
     kw = {'tracer': tr, 'block': blk}
     # arguments that would be empty / default are left out, so that the constructors' own
